@@ -70,6 +70,13 @@ def SparseSt.readAt (fetch : Fetch) (s : SparseSt) (off n : Nat) : SparseRead ×
     let b := (s'.file.drop off).take n
     (.data b (decide (b.length < n)), s')
 
+/-- mount-sparse.go `sparseIndexFile.Read`: the FUSE read request on the mounted file.  `io.EOF` from `ReadAt` (a
+    short read at the end of the file) is answered with the bytes read; every other error with `EIO` (`none`). -/
+def SparseSt.mountRead (fetch : Fetch) (s : SparseSt) (off n : Nat) : Option Bytes × SparseSt :=
+  match s.readAt fetch off n with
+  | (.data b _, s') => (some b, s')
+  | (.err, s') => (none, s')
+
 /-- `WriteState`: the bitmap as saved (here: the flag list) -/
 def SparseSt.saveState (s : SparseSt) : List Bool := s.done
 
